@@ -46,7 +46,7 @@ HUGE = 10 ** 5
 def plan(tier):
     base = {"case_time_limit": 600,
             "required_classes": ["method:1site", "method:2site", "solver:direct", "solver:iterative", "nroots:1",
-                                 "nroots:2", "nroots:3", "nroots:4", "omega", "stacked", "complex-H", "qn:none",
+                                 "nroots:2", "nroots:3", "nroots:4", "two-component-label:several-roots", "omega", "stacked", "complex-H", "qn:none",
                                  "qn:one", "qn:two", "schedule:truncating-then-full", "schedule:full-perturbed-to-the-end", "inverse:-1", "model:holstein",
                                  "model:xxz", "model:generic", "model:qc", "ofs", "equality-checked:direct",
                                  "equality-checked:iterative-converged", "equality-checked:sweep-energy",
@@ -180,6 +180,32 @@ def model_holstein(rng, max_dim, cplx, big=False):
             c = c * np.exp(1j * rng.uniform(0.2, 2.9))
         terms.append(gen.make_op([sop(gm, esite[i], r"a^\dagger"), sop(gm, esite[j], "a")], c))
         terms.append(gen.make_op([sop(gm, esite[j], r"a^\dagger"), sop(gm, esite[i], "a")], np.conj(c)))
+    return gm, terms
+
+
+def model_two_flavour(rng):
+    """Two particle species on alternating sites, one conserved number each (a two-component label), a few sites per
+    species, on-site energies that put the sectors with more particles lower, hopping within a species and
+    density-density coupling between them."""
+    from renormalizer.model import basis as ba
+    n = int(rng.integers(5, 8))
+    basis, fl = [], []
+    for i in range(n):
+        f = i % 2
+        fl.append(f)
+        basis.append(ba.BasisSimpleElectron(f"f{i}", sigmaqn=[[0, 0], [1, 0]] if f == 0 else [[0, 0], [0, 1]]))
+    gm = gen.GenModel(basis, {"kind": "two-flavour", "qn_mode": "two", "n": n})
+    terms = []
+    for i in range(n):
+        terms.append(gen.make_op([sop(gm, i, r"a^\dagger a")], -float(rng.uniform(0.3, 1.5))))
+    for i in range(n):
+        for j in range(i + 1, n):
+            if fl[i] == fl[j] and (j - i == 2 or rng.random() < 0.4):
+                c = float(rng.uniform(0.2, 1.0)) * (-1 if rng.random() < 0.5 else 1)
+                terms.append(gen.make_op([sop(gm, i, r"a^\dagger"), sop(gm, j, "a")], c))
+                terms.append(gen.make_op([sop(gm, j, r"a^\dagger"), sop(gm, i, "a")], c))
+            elif fl[i] != fl[j] and rng.random() < 0.6:
+                terms.append(gen.make_op([sop(gm, i, r"a^\dagger a"), sop(gm, j, r"a^\dagger a")], float(rng.normal() * 0.5)))
     return gm, terms
 
 
@@ -420,12 +446,20 @@ def run_chain_case(ctx):
     # 40% of the runs are laid out for the iterative solver (prod(cshape) >= 1000 needs prod(d) >= 1000, bonds near the
     # exact ranks and a start state that already has them)
     big = bool(rng.random() < 0.45)
+    # by case index: several roots in a sector of a two-component label whose components stay below the largest block label
+    two_flavour = ctx.idx % 20 == 6
+    if two_flavour:
+        big = False
     for _attempt in range(8):
-        gm, terms, parts, H, kind = build_model(ctx, big)
+        if two_flavour:
+            gm, terms = model_two_flavour(rng)
+            parts, H, kind = None, sparse_op(gm.basis, terms), "two-flavour"
+        else:
+            gm, terms, parts, H, kind = build_model(ctx, big)
         basis = gm.basis
         # ---- sector -----------------------------------------------------------------------------------
         for _ in range(6):
-            qntot = states.pick_sector(rng, gm)
+            qntot = np.array([1, 1]) if two_flavour else states.pick_sector(rng, gm)
             mask = dense.sector_mask(basis, qntot)
             ds = int(mask.sum())
             if ds >= 2:
@@ -449,6 +483,9 @@ def run_chain_case(ctx):
 
     # ---- configuration --------------------------------------------------------------------------------
     nroots = int(rng.choice([1, 2, 3, 4], p=[0.5, 0.2, 0.15, 0.15]))
+    if two_flavour:
+        nroots = 2 + (ctx.idx // 20) % 2
+        ctx.cls("two-component-label:several-roots")
     nroots = max(1, min(nroots, ds))
     method = "2site" if rng.random() < 0.55 else "1site"
     ra = rng.random()
